@@ -12,6 +12,16 @@ Proof. intros Hb Hn. unfold evolve. rewrite (keygen_closed d b s Hb). apply upda
 Lemma pk_of_closed d b s : length b = ksize d -> pk_of d b s = pk_tree d s.
 Proof. intros Hb. unfold pk_of. rewrite (keygen_closed d b s Hb). reflexivity. Qed.
 
+(* any number of update() calls at the last period are refused and change nothing *)
+Lemma update_calls_refused d k : snd (update d k) = false ->
+  forall j, update_calls d j k = k /\ snd (update d (update_calls d j k)) = false.
+Proof.
+  intros H j. induction j as [|j [IH1 IH2]]; cbn [update_calls]; [split; [reflexivity|exact H]|].
+  rewrite IH1. destruct (update d k) as [k' ok] eqn:E. cbn [snd] in H. subst ok.
+  rewrite (update_err_unchanged _ _ _ E). cbn [fst]. split; [reflexivity|].
+  rewrite (update_err_unchanged _ _ _ E) in E. rewrite E. reflexivity.
+Qed.
+
 (* ---- public keys of distinct seeds are distinct ---- *)
 Lemma pk_tree_inj n : forall a b, pk_tree n a = pk_tree n b -> a = b.
 Proof.
